@@ -76,6 +76,26 @@ func (t *Collection) reclaimMarkUpdate(nloc *nodeLoc,
 	return n
 }
 
+// markAllUnlocked marks every cached, not yet marked node below nloc as
+// reclaimable with reclaimMark.  The caller holds t.rootLock.
+func (t *Collection) markAllUnlocked(nloc *nodeLoc, reclaimMark *node) {
+	if nloc.isEmpty() {
+		return
+	}
+	n := nloc.Node()
+	if n == nil || n == reclaimMark {
+		return
+	}
+	if n.next == nil {
+		n.next = reclaimMark
+	}
+	if n.next != reclaimMark {
+		return
+	}
+	t.markAllUnlocked(&n.left, reclaimMark)
+	t.markAllUnlocked(&n.right, reclaimMark)
+}
+
 func (t *Collection) reclaimNodesUnlocked(n *node,
 	reclaimLater *[3]*node, reclaimMark *node) int64 {
 	if n == nil {
@@ -223,6 +243,7 @@ func (t *Collection) mkRootNodeLoc(root *nodeLoc) *rootNodeLoc {
 	rnl.next = nil
 	rnl.chainedCollection = nil
 	rnl.chainedRootNodeLoc = nil
+	rnl.superseded = false
 	for i := 0; i < len(rnl.reclaimLater); i++ {
 		rnl.reclaimLater[i] = nil
 	}
